@@ -138,7 +138,7 @@ def small_entry(g, env, arr_decls, funcs=(), subs=(), nint=2, nreal=1, nlog=1, l
 
 
 # ------------------------------------------------------------------ checksum epilogue (shared with C30/C32)
-def checksum_epilogue(env, loopvars, acc_int='yi0', acc_real='yr0', skip=()):
+def checksum_epilogue(env, loopvars, acc_int='yi0', acc_real='yr0', skip=(), loops=True):
     """
     position-sensitive checksums of every local/inout variable into the integer and real accumulators:
     sum_k k*arr(k) through explicit loops, scalars added with distinct small weights.
@@ -162,6 +162,14 @@ def checksum_epilogue(env, loopvars, acc_int='yi0', acc_real='yr0', skip=()):
             w = w % 5 + 1
             continue
         if t == 'logical' or len(v['dims']) > len(lv):
+            continue
+        if not loops:
+            # loop-free variant (1-D arrays with literal bounds): one statement per element
+            lb, ub = v['dims'][0]
+            for k in range(lb, ub + 1):
+                parts = [list(x) for x in ref[1]]
+                parts[-1][1] = [lit(k)]
+                out.append(['assign', var(acc), ['b', '+', var(acc), ['b', '*', ['i', abs(k) + 1], ['d', parts]]]])
             continue
         subs = [var(lv[k]) for k in range(len(v['dims']))]
         parts = [list(x) for x in ref[1]]
@@ -634,6 +642,28 @@ def gen_xforms(g, stream, hazard):
 
 
 @st.composite
+def minimal_cases(draw, hazard, nvec=4):
+    """bare-bones program around the known-finding template ``hazard`` (for minimal replay files)"""
+    g = B.G(draw, dict(STMT_PROFILE))
+    a = A(merge_safe=True, allow=[], force=hazard)
+    env = B.Env()
+    args, decls, entry_args, prologue = small_entry(g, env, [], nint=0, nreal=0, nlog=0, logical_arg=False)
+    decls += [decl('hza', 'int', dims=[[0, 4]]), decl('hzb', 'int', dims=[[1, 6]]), decl('hzs', 'int')]
+    prologue += [['assign', var('hza'), lit(g.i(1, 5))], ['assign', var('hzb'), lit(g.i(1, 5))], ['assign', var('hzs'), lit(0)]]
+    body = hazard_block(g, env, a, hazard)
+    used = mentioned_names(body) | {'n'}
+    decls = [d for d in decls if d['name'] in used or d.get('intent')]
+    prologue = [st_ for st_ in prologue if st_[1][1][0][0] in used]
+    kern = routine('kernel', args, decls, prologue + body)
+    f = {'name': 'kmod.f90', 'units': [['module', module('kmod', routines=[kern])]]}
+    return {'files': [f], 'entry': {'module': 'kmod', 'name': 'kernel', 'args': entry_args},
+            'inputs': B.gen_inputs(g, entry_args, nvec), 'layout': {'stream': [0], 'indent': 2}, 'driver': {},
+            'xforms': gen_xforms(g, 'hazard', hazard), 'hazards': [hazard],
+            'hz_paths': [len(prologue) + i for i in range(len(body))], 'avoided': [], 'feats': [],
+            'certain_depths': [1, 2] if hazard.startswith('merge') else [1]}
+
+
+@st.composite
 def cases(draw, hazard=None, nvec=4):
     """hazard=None: main stream (no known-finding trigger); otherwise the sub-stream for that trigger"""
     prof = dict(STMT_PROFILE)
@@ -734,6 +764,28 @@ def cases(draw, hazard=None, nvec=4):
 
 
 # ------------------------------------------------------------------ ablation (root-cause narrowing)
+def mentioned_names(x, acc=None):
+    """base names of all designators / loop variables occurring in a statement or expression tree"""
+    acc = set() if acc is None else acc
+    if isinstance(x, list):
+        if x and x[0] == 'd' and len(x) == 2 and isinstance(x[1], list):
+            acc.add(x[1][0][0])
+            for part in x[1]:
+                for sub in part[1] or []:
+                    mentioned_names(sub, acc)
+            return acc
+        if x and x[0] == 'do' and isinstance(x[1], str):
+            acc.add(x[1])
+        if x and x[0] == 'call' and isinstance(x[1], str):
+            acc.add(x[1])
+        for y in x:
+            mentioned_names(y, acc)
+    elif isinstance(x, dict):
+        for y in x.values():
+            mentioned_names(y, acc)
+    return acc
+
+
 def kernel_of(case):
     for kind, u in case['files'][0]['units']:
         if kind == 'module':
